@@ -580,30 +580,32 @@ def mux_gates(ctx):
             ds = v.drivers(rk)
             if not ob.need(bool(ds), "%s: no driver of %s" % (tag, rk)):
                 continue
+            cpre = key(ch.attrs["cmd"])
+            is_act = [Sym(cpre + ".ras"), Op("~", (Sym(cpre + ".cas"),)), Op("~", (Sym(cpre + ".we"),))]
             for l in ds:
-                # value = AND of conjuncts; each conjunct either a plain literal or a disjunction (~activate | X)
-                cas_ok = False
-                act_ok = (ch is R.req and nph > 1)    # request chooser never sees activates when nphases > 1 (C02.5)
-                for a, p in conj(l.value):
-                    ks = litset(v.expand([(a, p)]))
-                    if R.ready("tCCD") in ks:
-                        cas_ok = True
-                    if p and isinstance(a, Op) and a.op == "|":
-                        dl = disj(a)
-                        cpre = key(ch.attrs["cmd"])
-                        nact = {"~" + cpre + ".ras", cpre + ".cas", cpre + ".we"}   # De Morgan of ~(ras & ~cas & ~we)
-                        others = [x for x in dl if lkey(x) not in nact]
-                        has_nact = nact <= litset(dl)
-                        if has_nact and others and all({R.ready("tRRD"), R.ready("tFAW")} <= litset(v.expand(conj(o[0], o[1]))) for o in others):
-                            act_ok = True
+                if is0(l.value):
+                    continue
+                # truth table over the atoms of the (definition-expanded) acceptance condition: accept => gate.ready
+                cond = [expand_term(v, t_) for t_ in leaf_cond(l)]
+                tccd = expand_term(v, Sym(R.ready("tCCD")))
+                act_gates = [expand_term(v, Sym(R.ready("tRRD"))), expand_term(v, Sym(R.ready("tFAW")))]
                 needs_cas = ch is R.req
-                ob.instance("%s state %s: %s" % (tag, l.state, rk), {"value": key(l.value), "cas_gated": cas_ok, "act_gated": act_ok})
-                if needs_cas and not cas_ok:
+                cas_ok, cex1 = implies(cond, [tccd]) if needs_cas else (True, None)
+                if ch is R.req and nph > 1:
+                    act_ok, cex2 = True, None     # request chooser never sees activates when nphases > 1 (C02.5)
+                else:
+                    act_ok, cex2 = implies(cond + is_act, act_gates)
+                ob.instance("%s state %s: %s" % (tag, l.state, rk), {"accept condition": [key(c_)[:160] for c_ in cond], "cas_gated": cas_ok, "act_gated": act_ok})
+                if cas_ok is None or act_ok is None:
+                    ob.unknown("%s state %s: acceptance condition of %s too large to enumerate (%s)" % (tag, l.state, rk, cex1 or cex2))
+                    continue
+                if cas_ok is False:
                     ob.refute("%s:cas:%s" % (tag, l.state), "in state %s the request chooser accepts column commands without "
-                              "gate(tCCD).ready: %s" % (l.state, key(l.value)), l.loc)
-                if not act_ok:
+                              "gate(tCCD).ready: %s is satisfied by %s" % (l.state, key(l.value), sorted(k_ for k_, x_ in cex1.items() if x_)), l.loc)
+                if act_ok is False:
                     ob.refute("%s:ras:%s:%s" % (tag, l.state, "req" if ch is R.req else "cmd"), "in state %s chooser %s accepts an activate "
-                              "without gate(tRRD).ready & gate(tFAW).ready: %s" % (l.state, ch, key(l.value)), l.loc)
+                              "without gate(tRRD).ready & gate(tFAW).ready: %s is satisfied by %s" %
+                              (l.state, ch, key(l.value), sorted(k_ for k_, x_ in cex2.items() if x_)), l.loc)
         # triggers
         cc, rc = key(R.cmdch.attrs["cmd"]), key(R.req.attrs["cmd"])
         exp = {
